@@ -19,6 +19,7 @@ class Slice(object):
         self.params = set()
         self.consts = set()
         self.names = set()
+        self.opaque = []         # sub-expressions not looked into
 
     def call_names(self):
         out = set()
@@ -61,7 +62,10 @@ def _positional(v, kind, i):
     return v
 
 
-def backward_slice(fi, expr, at=None, max_steps=4000, positional=False):
+def backward_slice(fi, expr, at=None, max_steps=4000, positional=False,
+                   opaque=None):
+    """opaque(node) -> True for sub-expressions that are recorded but
+    not looked into (e.g. the argument of len())"""
     cfg = cfg_of(fi)
     rd = rd_of(fi)
     out = Slice()
@@ -88,7 +92,15 @@ def backward_slice(fi, expr, at=None, max_steps=4000, positional=False):
                     for t in ast.walk(g.target):
                         if isinstance(t, ast.Name):
                             comp_bind[t.id] = g.iter
+        hidden = set()
+        if opaque is not None:
+            for sub in ast.walk(e):
+                if opaque(sub):
+                    hidden |= {id(x) for x in ast.walk(sub)} - {id(sub)}
+                    out.opaque.append(sub)
         for sub in ast.walk(e):
+            if id(sub) in hidden:
+                continue
             if isinstance(sub, ast.Call):
                 out.calls.append(sub)
             elif isinstance(sub, ast.Attribute) and isinstance(
